@@ -50,3 +50,7 @@ pub const KF_C10_TRAILER_DISPLAY_DROPS_SYS: bool = false;
 pub const KF_C04_MT935_T14: bool = true;
 #[cfg(not(kani))]
 pub const KF_C04_MT935_T14: bool = false;
+#[cfg(kani)]
+pub const KF_C10_APPLICATIONHEADER_DISPLAY_DROPS_UNDOCUMENTED_SHAPE: bool = true;
+#[cfg(not(kani))]
+pub const KF_C10_APPLICATIONHEADER_DISPLAY_DROPS_UNDOCUMENTED_SHAPE: bool = false;
